@@ -423,6 +423,7 @@ type scriptParams struct {
 	DNSCheckOK   bool   // check.kv.type is "cache": the DNS-check name must be answered
 	DNSCheckAll  bool   // backend-matrix case: DNS-check names are sent, and must be answered, whatever the store (an error of the store is reported, the query is still answered)
 	KVFault      string // fault mode of the key-value backend
+	ProfileDev   bool   // send queries from the linked IP of the stub backend's profile device
 	ProviderName string
 	ProviderPK   string
 
@@ -470,6 +471,12 @@ func runTraffic(servers []liveServer, sp scriptParams, hopeless func() bool) (gr
 						base = append(base, query{dnsCheckName, dns.TypeA, 0})
 					}
 					add("dns-udp", "allowlisted", "all", udpExchanger(srcAllowlisted, addr), base)
+					if sp.ProfileDev {
+						add("dns-udp", "profile-device", "all", udpExchanger(srcProfileDev, addr), []query{
+							{name("pd1"), dns.TypeA, 0}, {name("pd2"), dns.TypeAAAA, 0}, {name("pd3"), dns.TypeTXT, 0},
+						})
+						add("dns-tcp", "profile-device", "all", streamExchanger(srcProfileDev, addr, nil), []query{{name("pd4"), dns.TypeA, 0}})
+					}
 					if sp.DNSCheckAll {
 						g := "dnscheck"
 						if sp.KVFault != "" {
